@@ -42,17 +42,47 @@ def shrink(mod, case, viol, runner, budget_s=20.0):
         return False
 
     attempt.expired = lambda: time.monotonic() - t0 > budget_s
+
+    def drop_unnamed_files():
+        named = set()
+        for op in best["ops"]:
+            named.update(runner.named_files(op))
+            if op["op"] == "write":
+                named.add(op["path"])
+            for f in op.get("faults") or []:
+                if f.get("target"):
+                    named.add(f["target"])
+        extra_keep = set((best.get("extra") or {}).get("keep_files") or [])
+        drop = [f for f in best["files"] if f not in named and f not in extra_keep]
+        if drop:
+            c = copy.deepcopy(best)
+            for f in drop:
+                c["files"].pop(f)
+            return attempt(c)
+        return False
+
+    # 0. a big world makes every later step slow: files no operation names go first
+    drop_unnamed_files()
     changed = True
     rounds = 0
     while changed and time.monotonic() - t0 < budget_s and rounds < 6:
         changed = False
         rounds += 1
         # 1. fewer operations (the last operation is the one that shows the violation)
-        changed |= _ddmin_list(lambda: best["ops"][:-1], lambda keep: {**best, "ops": keep + [best["ops"][-1]]}, attempt)
+        t_pos = _target_index(best["ops"])
+        t_item = (t_pos, best["ops"][t_pos])
+
+        def _others():
+            return [(i, o) for i, o in enumerate(best["ops"]) if i != t_pos]
+
+        def _with(keep, t_item=t_item):
+            return {**best, "ops": [o for _i, o in sorted(list(keep) + [t_item], key=lambda io: io[0])]}
+
+        changed |= _ddmin_list(_others, _with, attempt)
         # 2. fewer faults in each fault plan
         for oi in range(len(best["ops"])):
             fl = best["ops"][oi].get("faults") or []
-            if len(fl) > 1 or (fl and oi != len(best["ops"]) - 1):
+            if len(fl) > 1 or (fl and oi != _target_index(best["ops"])):
                 def mk(keep, oi=oi):
                     c = copy.deepcopy(best)
                     c["ops"][oi]["faults"] = keep
@@ -70,22 +100,7 @@ def shrink(mod, case, viol, runner, budget_s=20.0):
                     if attempt(c):
                         changed = True
         # 4. fewer files: drop files no op names
-        named = set()
-        for op in best["ops"]:
-            named.update(runner.named_files(op))
-            if op["op"] == "write":
-                named.add(op["path"])
-            for f in op.get("faults") or []:
-                if f.get("target"):
-                    named.add(f["target"])
-        extra_keep = set((best.get("extra") or {}).get("keep_files") or [])
-        drop = [f for f in best["files"] if f not in named and f not in extra_keep]
-        if drop:
-            c = copy.deepcopy(best)
-            for f in drop:
-                c["files"].pop(f)
-            if attempt(c):
-                changed = True
+        changed |= drop_unnamed_files()
         # 5. shorter listings
         for rel in sorted(best["files"]):
             content = best["files"][rel]
@@ -113,6 +128,11 @@ def shrink(mod, case, viol, runner, budget_s=20.0):
                     changed |= _shrink_yaml_in_op(best, oi, fi, attempt, lambda: best)
     best.setdefault("extra", {})["shrink"] = {"evaluations": tried, "rounds": rounds}
     return best, best_v
+
+
+def _target_index(ops):
+    """The operation that shows the violation: the marked one, else the last one."""
+    return next((i for i, o in enumerate(ops) if o.get("_target")), len(ops) - 1)
 
 
 def _ddmin_list(get, make, attempt, allow_empty=True):
